@@ -227,7 +227,12 @@ def universes(draw, lang, max_classes=6, max_params=3):
         if u.order and draw(st.integers(0, 3)) > 0:
             # supertype over own (invariant-safe) parameters
             sscope = {pn: ('v', pn, pb) for pn, pv, pb in params}
-            sup = draw(types(u, R, depth=2, scope=sscope, proj=False, only_user=True))
+            sup = draw(types(u, R, depth=2, scope=sscope, proj=draw(st.booleans()), star=False, only_user=True))
+            if sup is not None and sup[0] == 'i':
+                # immediate arguments of a supertype cannot be projections (Java / Kotlin); nested ones can
+                sup = ('i', sup[1], tuple((a[2] if a[0] == 'p' else a) for a in sup[2]))
+                if rm.has_kind(sup, ('star',)) or not R.wf(sup):
+                    sup = None
             if sup is not None and not _variance_ok(u, sup, params, 'out'):
                 sup = None
             if sup is not None and sup[0] not in ('c', 'i'):
